@@ -19,7 +19,7 @@ size_t verif_max_tape = 200;
 
 namespace {
 
-struct Piece { size_t offset, len, total; bool content_ok; bool is_tail = false; /* exactly the last len bytes of the body, presented as a whole body */ };
+struct Piece { size_t offset, len, total; bool content_ok; bool is_tail = false; /* exactly one block of the body (the last len bytes, or len bytes at a multiple of len), presented as a whole body */ };
 
 struct Transfer {
   int kind = 0;  // 0 upload (PUT), 1 download (GET), 2 both (POST)
@@ -73,7 +73,10 @@ Piece record_piece(const coap_pdu_t *pdu, const std::vector<uint8_t> &body) {
   if (!coap_get_data_large(pdu, &len, &data, &offset, &total)) return p;
   p.offset = offset; p.len = len; p.total = total;
   p.content_ok = offset + len <= body.size() && (len == 0 || memcmp(data, body.data() + offset, len) == 0);
+  // one block of the body (the last one, or any block-aligned one) presented as if it were a whole body
   p.is_tail = !p.content_ok && offset == 0 && len > 0 && len < body.size() && memcmp(data, body.data() + body.size() - len, len) == 0;
+  if (!p.content_ok && !p.is_tail && offset == 0 && len > 0 && len < body.size() && total == len)
+    for (size_t off = len; off + len <= body.size(); off += len) if (memcmp(data, body.data() + off, len) == 0) { p.is_tail = true; break; }
   return p;
 }
 
@@ -299,14 +302,15 @@ int verif_case(const uint8_t *tape, size_t tlen, Info *info) {
       // the last block was sent): the server hands it to the application handler as a random-access request, the answer carries no ETag,
       // the client gives up the reassembly and passes that single block to the application as a 2.05 response
       bool redelivered_b2_req = false;
-      std::map<std::vector<uint8_t>, uint64_t> first_seen;
+      // (the request - first copy or retransmission - reaches the server 7 s or more after the server last sent a block of a response body)
+      uint64_t last_block_sent = UINT64_MAX;
       for (auto &e : w.trace) {
         ref::Msg m;
-        if (e.kind != EV_DELIVER || !simh::parse(e.data, &m) || !ref::is_request(m.code)) continue;
+        if (!simh::parse(e.data, &m)) continue;
         const ref::Opt *b2 = simh::find_opt(m, 23);
-        if (!b2 || (simh::opt_uint(b2->val) >> 4) == 0) continue;
-        if (first_seen.count(e.data) && e.t >= first_seen[e.data] + 7000) redelivered_b2_req = true;
-        if (!first_seen.count(e.data)) first_seen[e.data] = e.t;
+        if (!b2) continue;
+        if (e.kind == EV_SEND && e.from_lib && !ref::is_request(m.code) && !(e.src == cli_local)) last_block_sent = e.t;
+        if (e.kind == EV_DELIVER && ref::is_request(m.code) && (simh::opt_uint(b2->val) >> 4) > 0 && last_block_sent != UINT64_MAX && e.t >= last_block_sent + 7000) redelivered_b2_req = true;
       }
       bool only_tail = true, any_bad = false;
       for (auto &p : tr.cli_pieces) if (!p.content_ok) { any_bad = true; if (!p.is_tail) only_tail = false; }
